@@ -44,6 +44,7 @@ use std::time::Duration;
 
 use futures_io::{AsyncRead, AsyncWrite, IoSlice};
 use futures_util::stream::Stream;
+use hickory_net::runtime::iocompat::{AsyncIoStdAsTokio, AsyncIoTokioAsStd};
 use hickory_net::runtime::{DnsTcpStream, TokioTime};
 use hickory_net::tcp::{TcpClientStream, TcpStream};
 use hickory_net::{BufDnsStreamHandle, DnsStreamHandle};
@@ -64,6 +65,28 @@ fn foreign_addr() -> SocketAddr {
 /// Message k of a sequence, `len` bytes, every byte depends on (k, position).
 fn message(k: usize, len: usize) -> Vec<u8> {
     (0..len).map(|i| ((k * 89 + i * 7 + 13) % 251) as u8).collect()
+}
+
+/// Message content knob: the position pattern above, all 0x00 (every byte pair looks like a zero
+/// length prefix) or all 0xff (every byte pair looks like the maximal length prefix).
+#[derive(Clone, Copy, Debug, PartialEq, Eq)]
+enum Fill {
+    Pattern,
+    Zeros,
+    Ones,
+}
+
+fn message_filled(k: usize, len: usize, fill: Fill) -> Vec<u8> {
+    match fill {
+        Fill::Pattern => message(k, len),
+        Fill::Zeros => vec![0u8; len],
+        Fill::Ones => vec![0xffu8; len],
+    }
+}
+
+fn inbound_filled(lens: &[usize], fill: Fill) -> Vec<u8> {
+    let msgs: Vec<Vec<u8>> = lens.iter().enumerate().map(|(k, l)| message_filled(k, *l, fill)).collect();
+    frame::frame(&msgs)
 }
 
 // ------------------------------------------------------------------------------------------
@@ -165,6 +188,10 @@ struct Shared {
     read_waker: Option<Waker>,
     write_waker: Option<Waker>,
     flush_waker: Option<Waker>,
+    /// kind of the scripted I/O errors (instance knob)
+    err_kind: u8,
+    /// observation probe only: answer this many writes with Ok(0) before anything else
+    zero_write_budget: u32,
 }
 
 impl Shared {
@@ -184,12 +211,21 @@ impl DnsTcpStream for SimTcp {
     type Time = TokioTime;
 }
 
-fn sim_err() -> io::Error {
-    io::Error::new(io::ErrorKind::ConnectionReset, "scripted I/O error")
+const ERR_KINDS: [io::ErrorKind; 5] =
+    [io::ErrorKind::ConnectionReset, io::ErrorKind::UnexpectedEof, io::ErrorKind::Interrupted, io::ErrorKind::WouldBlock, io::ErrorKind::TimedOut];
+
+fn sim_err(kind: u8) -> io::Error {
+    io::Error::new(ERR_KINDS[kind as usize % ERR_KINDS.len()], "scripted I/O error")
 }
 
 impl AsyncRead for SimTcp {
     fn poll_read(self: Pin<&mut Self>, cx: &mut Context<'_>, buf: &mut [u8]) -> Poll<io::Result<usize>> {
+        self.read(cx, buf)
+    }
+}
+
+impl SimTcp {
+    fn read(&self, cx: &mut Context<'_>, buf: &mut [u8]) -> Poll<io::Result<usize>> {
         let mut s = self.0.lock().unwrap();
         if s.frozen.is_some() {
             return Poll::Pending;
@@ -245,7 +281,7 @@ impl AsyncRead for SimTcp {
                 s.errors_used += 1;
                 s.flags |= F_READ_ERR;
                 s.nonprogress = 2;
-                Poll::Ready(Err(sim_err()))
+                Poll::Ready(Err(sim_err(s.err_kind)))
             }
             other => {
                 s.bad_script = Some(format!("answer {other:?} at poll_read(buf {}, remaining {remaining})", buf.len()));
@@ -266,6 +302,10 @@ impl SimTcp {
         let offered: usize = bufs.iter().map(|b| b.len()).sum();
         if offered == 0 {
             // nothing offered: Ok(0) is the only possible answer, no decision
+            return Poll::Ready(Ok(0));
+        }
+        if s.zero_write_budget > 0 {
+            s.zero_write_budget -= 1;
             return Poll::Ready(Ok(0));
         }
         let c = match s.next() {
@@ -306,7 +346,7 @@ impl SimTcp {
                 s.errors_used += 1;
                 s.flags |= F_WRITE_ERR;
                 s.nonprogress = 4;
-                Poll::Ready(Err(sim_err()))
+                Poll::Ready(Err(sim_err(s.err_kind)))
             }
             other => {
                 s.bad_script = Some(format!("answer {other:?} at poll_write(offered {offered})"));
@@ -326,6 +366,15 @@ impl AsyncWrite for SimTcp {
         self.write(cx, &v, true)
     }
     fn poll_flush(self: Pin<&mut Self>, cx: &mut Context<'_>) -> Poll<io::Result<()>> {
+        self.flush(cx)
+    }
+    fn poll_close(self: Pin<&mut Self>, _cx: &mut Context<'_>) -> Poll<io::Result<()>> {
+        Poll::Ready(Ok(()))
+    }
+}
+
+impl SimTcp {
+    fn flush(&self, cx: &mut Context<'_>) -> Poll<io::Result<()>> {
         let mut s = self.0.lock().unwrap();
         if s.frozen.is_some() {
             return Poll::Pending;
@@ -357,7 +406,7 @@ impl AsyncWrite for SimTcp {
                 s.errors_used += 1;
                 s.flags |= F_FLUSH_ERR;
                 s.nonprogress = 6;
-                Poll::Ready(Err(sim_err()))
+                Poll::Ready(Err(sim_err(s.err_kind)))
             }
             other => {
                 s.bad_script = Some(format!("answer {other:?} at poll_flush"));
@@ -366,7 +415,41 @@ impl AsyncWrite for SimTcp {
             }
         }
     }
-    fn poll_close(self: Pin<&mut Self>, _cx: &mut Context<'_>) -> Poll<io::Result<()>> {
+}
+
+/// The same scripted socket seen through tokio's I/O traits (what a real `tokio::net::TcpStream` or a
+/// TLS stream looks like); hickory reaches it through its `AsyncIoTokioAsStd` adaptor.
+struct SimTokio(SimTcp);
+
+impl tokio::io::AsyncRead for SimTokio {
+    fn poll_read(self: Pin<&mut Self>, cx: &mut Context<'_>, buf: &mut tokio::io::ReadBuf<'_>) -> Poll<io::Result<()>> {
+        let slice = buf.initialize_unfilled();
+        match self.0.read(cx, slice) {
+            Poll::Ready(Ok(n)) => {
+                buf.advance(n);
+                Poll::Ready(Ok(()))
+            }
+            Poll::Ready(Err(e)) => Poll::Ready(Err(e)),
+            Poll::Pending => Poll::Pending,
+        }
+    }
+}
+
+impl tokio::io::AsyncWrite for SimTokio {
+    fn poll_write(self: Pin<&mut Self>, cx: &mut Context<'_>, buf: &[u8]) -> Poll<io::Result<usize>> {
+        self.0.write(cx, &[buf], false)
+    }
+    fn poll_write_vectored(self: Pin<&mut Self>, cx: &mut Context<'_>, bufs: &[io::IoSlice<'_>]) -> Poll<io::Result<usize>> {
+        let v: Vec<&[u8]> = bufs.iter().map(|b| &b[..]).collect();
+        self.0.write(cx, &v, true)
+    }
+    fn is_write_vectored(&self) -> bool {
+        true
+    }
+    fn poll_flush(self: Pin<&mut Self>, cx: &mut Context<'_>) -> Poll<io::Result<()>> {
+        self.0.flush(cx)
+    }
+    fn poll_shutdown(self: Pin<&mut Self>, _cx: &mut Context<'_>) -> Poll<io::Result<()>> {
         Poll::Ready(Ok(()))
     }
 }
@@ -379,12 +462,45 @@ enum Wrapper {
     Plain,
     Client,
     Timeout,
+    /// `TcpStream<AsyncIoTokioAsStd<tokio-style socket>>`: vectored writes are forwarded
+    CompatTokio,
+    /// `TcpStream<AsyncIoTokioAsStd<AsyncIoStdAsTokio<SimTcp>>>`: both adaptors; the inner one does not
+    /// forward vectored writes, so the length prefix is always offered alone (like a TLS stream)
+    CompatChain,
+    /// the composition of the server's TCP loop: `TimeoutStream<TcpStream<AsyncIoTokioAsStd<socket>>>`
+    ServerStack,
 }
+
+type TokioSock = AsyncIoTokioAsStd<SimTokio>;
+type ChainSock = AsyncIoTokioAsStd<AsyncIoStdAsTokio<SimTcp>>;
 
 enum Machine {
     Plain(TcpStream<SimTcp>),
     Client(TcpClientStream<SimTcp>),
     Timeout(TimeoutStream<TcpStream<SimTcp>>),
+    CompatTokio(TcpStream<TokioSock>),
+    CompatChain(TcpStream<ChainSock>),
+    ServerStack(TimeoutStream<TcpStream<TokioSock>>),
+}
+
+/// How the `TcpStream` is constructed (knob: outbound queue depth, connect future).
+#[derive(Clone, Copy, Debug, PartialEq, Eq)]
+enum Ctor {
+    FromStream,
+    BufferSize(usize),
+    WithFuture,
+}
+
+fn construct<S: DnsTcpStream>(sock: S, ctor: Ctor) -> (TcpStream<S>, BufDnsStreamHandle) {
+    match ctor {
+        Ctor::FromStream => TcpStream::from_stream(sock, peer()),
+        Ctor::BufferSize(n) => TcpStream::from_stream_with_buffer_size(sock, peer(), n),
+        Ctor::WithFuture => {
+            let (fut, handle) = TcpStream::with_future(async move { Ok(sock) }, peer(), Duration::from_secs(5));
+            let stream = RT.with(|rt| rt.block_on(fut)).expect("HARNESS: with_future over a ready future failed");
+            (stream, handle)
+        }
+    }
 }
 
 type Item = Option<Result<Vec<u8>, String>>;
@@ -407,6 +523,9 @@ impl Machine {
             Machine::Plain(s) => Pin::new(s).poll_next(cx).map(|r| conv(r, &mut bad)),
             Machine::Client(s) => Pin::new(s).poll_next(cx).map(|r| conv(r, &mut bad)),
             Machine::Timeout(s) => Pin::new(s).poll_next(cx).map(|r| conv(r, &mut bad)),
+            Machine::CompatTokio(s) => Pin::new(s).poll_next(cx).map(|r| conv(r, &mut bad)),
+            Machine::CompatChain(s) => Pin::new(s).poll_next(cx).map(|r| conv(r, &mut bad)),
+            Machine::ServerStack(s) => Pin::new(s).poll_next(cx).map(|r| conv(r, &mut bad)),
         };
         if bad {
             return Poll::Ready(Some(Err("HARNESS: message with a foreign source address".into())));
@@ -443,8 +562,13 @@ struct Inst {
     wake_driven: bool,
     /// how many foreign-addressed messages the driver may hand over
     foreign: u8,
-    /// how many clock ticks the driver may insert (TimeoutStream wrapper only)
+    /// how many clock ticks the driver may insert (TimeoutStream wrappers only)
     max_ticks: u8,
+    /// knobs
+    ctor: Ctor,
+    timeout_secs: u32,
+    err_kind: u8,
+    fill: Fill,
 }
 
 impl Inst {
@@ -474,7 +598,7 @@ impl Inst {
             p += 2 + m.len();
             b.push(p);
         }
-        Inst { label, wrapper, inbound: Arc::new(inbound), in_frames, zero_at, out_msgs, out_image, out_boundaries: Arc::new(b), max_errors, allow_drop, wake_driven: false, foreign: 0, max_ticks: 0 }
+        Inst { label, wrapper, inbound: Arc::new(inbound), in_frames, zero_at, out_msgs, out_image, out_boundaries: Arc::new(b), max_errors, allow_drop, wake_driven: false, foreign: 0, max_ticks: 0, ctor: Ctor::FromStream, timeout_secs: 360, err_kind: 0, fill: Fill::Pattern }
     }
     fn to_json(&self) -> Value {
         json!({
@@ -487,13 +611,30 @@ impl Inst {
             "wake_driven": self.wake_driven,
             "foreign": self.foreign,
             "max_ticks": self.max_ticks,
+            "ctor": match self.ctor { Ctor::FromStream => json!("from_stream"), Ctor::BufferSize(n) => json!(n), Ctor::WithFuture => json!("with_future") },
+            "timeout_secs": self.timeout_secs,
+            "err_kind": self.err_kind,
+            "fill": format!("{:?}", self.fill),
         })
     }
     fn from_json(v: &Value) -> Inst {
         let wrapper = match v["wrapper"].as_str().unwrap_or("Plain") {
             "Client" => Wrapper::Client,
             "Timeout" => Wrapper::Timeout,
+            "CompatTokio" => Wrapper::CompatTokio,
+            "CompatChain" => Wrapper::CompatChain,
+            "ServerStack" => Wrapper::ServerStack,
             _ => Wrapper::Plain,
+        };
+        let fill = match v["fill"].as_str().unwrap_or("Pattern") {
+            "Zeros" => Fill::Zeros,
+            "Ones" => Fill::Ones,
+            _ => Fill::Pattern,
+        };
+        let ctor = match &v["ctor"] {
+            Value::Number(n) => Ctor::BufferSize(n.as_u64().unwrap_or(32) as usize),
+            Value::String(x) if x == "with_future" => Ctor::WithFuture,
+            _ => Ctor::FromStream,
         };
         let inbound = vcore::hex::dec(v["inbound_hex"].as_str().unwrap_or("")).unwrap_or_default();
         let out_lens: Vec<usize> = v["out_lens"].as_array().map(|a| a.iter().map(|x| x.as_u64().unwrap() as usize).collect()).unwrap_or_default();
@@ -508,6 +649,38 @@ impl Inst {
         .wake(v["wake_driven"].as_bool().unwrap_or(false))
         .foreign(v["foreign"].as_u64().unwrap_or(0) as u8)
         .ticks(v["max_ticks"].as_u64().unwrap_or(0) as u8)
+        .ctor(ctor)
+        .idle_timeout(v["timeout_secs"].as_u64().unwrap_or(360) as u32)
+        .err_kind(v["err_kind"].as_u64().unwrap_or(0) as u8)
+        .fill(fill)
+    }
+    fn ctor(mut self, c: Ctor) -> Inst {
+        self.ctor = c;
+        self
+    }
+    fn idle_timeout(mut self, secs: u32) -> Inst {
+        self.timeout_secs = secs;
+        self
+    }
+    fn err_kind(mut self, k: u8) -> Inst {
+        self.err_kind = k;
+        self
+    }
+    /// re-create the outbound messages with the given content (the inbound stream is given as bytes)
+    fn fill(mut self, f: Fill) -> Inst {
+        if f != self.fill {
+            let lens: Vec<usize> = self.out_msgs.iter().map(|m| m.len()).collect();
+            self.out_msgs = lens.iter().enumerate().map(|(k, l)| message_filled(100 + k, *l, f)).collect();
+            self.out_image = frame::frame(&self.out_msgs);
+            self.fill = f;
+        }
+        self
+    }
+    fn has_timer(&self) -> bool {
+        matches!(self.wrapper, Wrapper::Timeout | Wrapper::ServerStack)
+    }
+    fn needs_rt(&self) -> bool {
+        self.has_timer() || self.ctor == Ctor::WithFuture
     }
     fn foreign(mut self, n: u8) -> Inst {
         self.foreign = n;
@@ -553,6 +726,8 @@ struct RunOut {
     can_poll: bool,
     foreign_used: u8,
     foreign_outstanding: u8,
+    /// the last driver op was an enqueue refused by a full queue (no second try before a poll)
+    last_refused: bool,
     ticks_used: u8,
     /// virtual time since the timeout timer was (re)started, in units of 100 s, capped at 8
     since_restart: u8,
@@ -673,12 +848,36 @@ fn run(inst: &Inst, script: &[Choice], auto: Option<usize>, l: &mut Local) -> Ru
         read_waker: None,
         write_waker: None,
         flush_waker: None,
+        err_kind: inst.err_kind,
+        zero_write_budget: 0,
     }));
-    let (stream, handle): (TcpStream<SimTcp>, BufDnsStreamHandle) = TcpStream::from_stream(SimTcp(shared.clone()), peer());
-    let mut mach = match inst.wrapper {
-        Wrapper::Plain => Machine::Plain(stream),
-        Wrapper::Client => Machine::Client(TcpClientStream::from_stream(stream)),
-        Wrapper::Timeout => Machine::Timeout(TimeoutStream::new(stream, Duration::from_secs(360))),
+    let sim = SimTcp(shared.clone());
+    let idle = Duration::from_secs(inst.timeout_secs as u64);
+    let (mut mach, handle) = match inst.wrapper {
+        Wrapper::Plain => {
+            let (st, h) = construct(sim, inst.ctor);
+            (Machine::Plain(st), h)
+        }
+        Wrapper::Client => {
+            let (st, h) = construct(sim, inst.ctor);
+            (Machine::Client(TcpClientStream::from_stream(st)), h)
+        }
+        Wrapper::Timeout => {
+            let (st, h) = construct(sim, inst.ctor);
+            (Machine::Timeout(TimeoutStream::new(st, idle)), h)
+        }
+        Wrapper::CompatTokio => {
+            let (st, h) = construct(AsyncIoTokioAsStd(SimTokio(sim)), inst.ctor);
+            (Machine::CompatTokio(st), h)
+        }
+        Wrapper::CompatChain => {
+            let (st, h) = construct(AsyncIoTokioAsStd(AsyncIoStdAsTokio(sim)), inst.ctor);
+            (Machine::CompatChain(st), h)
+        }
+        Wrapper::ServerStack => {
+            let (st, h) = construct(AsyncIoTokioAsStd(SimTokio(sim)), inst.ctor);
+            (Machine::ServerStack(TimeoutStream::new(st, idle)), h)
+        }
     };
     let mut handle = Some(handle);
     let wc = Arc::new(WakeCount(AtomicUsize::new(0)));
@@ -690,6 +889,7 @@ fn run(inst: &Inst, script: &[Choice], auto: Option<usize>, l: &mut Local) -> Ru
 
     let mut enq = 0usize;
     let mut foreign_used = 0u8;
+    let mut last_refused = false;
     let mut foreign_outstanding = 0u8;
     let mut ticks_used = 0u8;
     let mut since_restart = 0u8;
@@ -717,7 +917,7 @@ fn run(inst: &Inst, script: &[Choice], auto: Option<usize>, l: &mut Local) -> Ru
                     break;
                 }
                 Some(_) => {
-                    if handle.is_some() && enq < inst.out_msgs.len() {
+                    if handle.is_some() && enq < inst.out_msgs.len() && !last_refused {
                         Choice::Enqueue
                     } else {
                         auto_polls += 1;
@@ -735,7 +935,11 @@ fn run(inst: &Inst, script: &[Choice], auto: Option<usize>, l: &mut Local) -> Ru
                 if let Some(h) = handle.as_mut() {
                     if enq < inst.out_msgs.len() {
                         if h.send(SerialMessage::new(inst.out_msgs[enq].clone(), peer())).is_err() {
-                            shared.lock().unwrap().bad_script = Some("handle.send failed".into());
+                            // the outbound queue is full: the handle refused the message, nothing was handed
+                            // over; the driver may offer the same message again after a poll
+                            l.outcome("enqueue:refused-queue-full");
+                            last_refused = true;
+                            continue;
                         }
                         enq += 1;
                         if last_pending && !violated {
@@ -796,12 +1000,13 @@ fn run(inst: &Inst, script: &[Choice], auto: Option<usize>, l: &mut Local) -> Ru
             }
         }
         shared.lock().unwrap().flags = 0;
+        last_refused = false;
         seen = wc.0.load(Ordering::SeqCst);
         let r = mach.poll(&mut cx);
         last_pending = matches!(r, Poll::Pending);
         // TimeoutStream (re)starts its timer at the first poll and whenever the inner stream is Ready
         let is_timeout_err = matches!(&r, Poll::Ready(Some(Err(e))) if e.contains("nothing ready in") || e.contains("timeout fired"));
-        let timeout_due = timer_started && since_restart as u32 * 100 >= 360;
+        let timeout_due = inst.has_timer() && inst.timeout_secs > 0 && timer_started && since_restart as u32 * 100 >= inst.timeout_secs;
         if !timer_started {
             timer_started = true;
             since_restart = 0;
@@ -913,7 +1118,7 @@ fn run(inst: &Inst, script: &[Choice], auto: Option<usize>, l: &mut Local) -> Ru
                 if is_timeout_err {
                     // the idle timeout of the wrapper: legitimate only after 360 s without an item
                     if !timeout_due {
-                        viol(l, "timeout:spurious", &format!("timeout error {} s after the timer was (re)started, the timeout is 360 s: {e}", since_restart as u32 * 100), &mut violated);
+                        viol(l, "timeout:spurious", &format!("timeout error {} s after the timer was (re)started, the configured idle timeout is {} s: {e}", since_restart as u32 * 100, inst.timeout_secs), &mut violated);
                     } else {
                         l.outcome("timeout:fired");
                     }
@@ -998,6 +1203,7 @@ fn run(inst: &Inst, script: &[Choice], auto: Option<usize>, l: &mut Local) -> Ru
         can_poll: !inst.wake_driven || !last_pending || wc.0.load(Ordering::SeqCst) != seen,
         foreign_used,
         foreign_outstanding,
+        last_refused,
         ticks_used,
         since_restart,
         timer_started,
@@ -1014,7 +1220,7 @@ fn choices(inst: &Inst, o: &RunOut) -> Vec<Choice> {
             if o.can_poll {
                 v.push(Choice::Poll);
             }
-            if o.alive && (o.enq as usize) < inst.out_msgs.len() {
+            if o.alive && (o.enq as usize) < inst.out_msgs.len() && !o.last_refused {
                 v.push(Choice::Enqueue);
             }
             if o.alive && inst.allow_drop && (o.enq as usize) == inst.out_msgs.len() {
@@ -1023,7 +1229,10 @@ fn choices(inst: &Inst, o: &RunOut) -> Vec<Choice> {
             if o.alive && o.foreign_used < inst.foreign {
                 v.push(Choice::EnqueueForeign);
             }
-            if inst.wrapper == Wrapper::Timeout && o.ticks_used < inst.max_ticks {
+            if inst.has_timer() && o.ticks_used < inst.max_ticks {
+                if inst.timeout_secs == 100 {
+                    v.push(Choice::Tick(1)); // exactly the timeout
+                }
                 v.push(Choice::Tick(2));
                 v.push(Choice::Tick(4));
             }
@@ -1101,7 +1310,7 @@ struct Node {
 
 fn guarded_run(inst: &Inst, script: &[Choice], auto: Option<usize>, l: &mut Local) -> Option<RunOut> {
     let f = || run(inst, script, auto, l);
-    let r = if inst.wrapper == Wrapper::Timeout {
+    let r = if inst.needs_rt() {
         RT.with(|rt| {
             let _g = rt.enter();
             catch(f)
@@ -1249,9 +1458,11 @@ fn main() {
     let mut grid_stats = serde_json::Map::new();
     let mut all_fix = true;
     let mut do_grid = |name: &str, insts: Vec<Inst>, base: &mut u32| -> vcore::BfsStats {
-        // instances are explored in slices of 24 to bound the memory of a BFS level
+        // instances are explored in slices to bound the memory of a BFS level (small instances in larger
+        // slices: every BFS level costs a round of worker start-up)
         let mut st = vcore::BfsStats { fixpoint: true, ..Default::default() };
-        for chunk in insts.chunks(24) {
+        let big = insts.iter().any(|i| i.inbound.len() + i.out_image.len() > 120);
+        for chunk in insts.chunks(if big { 24 } else { 160 }) {
             let part = run_bfs(&ctx, chunk, *base);
             *base += chunk.len() as u32;
             st.states += part.states;
@@ -1314,17 +1525,71 @@ fn main() {
     do_grid("joint", insts, &mut base);
 
     // conformance grids on the wrappers
-    for (name, w) in [("client", Wrapper::Client), ("timeout", Wrapper::Timeout)] {
+    for (name, w, ctor) in [
+        ("client", Wrapper::Client, Ctor::FromStream),
+        ("timeout", Wrapper::Timeout, Ctor::FromStream),
+        // the socket adaptors of runtime.rs and the server's composition (from_stream_with_buffer_size)
+        ("compat-tokio", Wrapper::CompatTokio, Ctor::FromStream),
+        ("compat-chain", Wrapper::CompatChain, Ctor::FromStream),
+        ("server-stack", Wrapper::ServerStack, Ctor::BufferSize(2)),
+    ] {
         let mut insts = vec![];
         let seqs = if quick { sequences(&[1, 3], 2) } else { small.clone() };
         for i in &seqs {
             for o in &seqs {
-                insts.push(Inst::new(format!("{name} in{i:?} out{o:?}"), w, inbound_of(i), o, 1, true));
+                insts.push(Inst::new(format!("{name} in{i:?} out{o:?}"), w, inbound_of(i), o, 1, true).ctor(ctor));
             }
         }
-        insts.push(Inst::new(format!("{name} read[255, 2]"), w, inbound_of(&[255, 2]), &[], 1, false));
-        insts.push(Inst::new(format!("{name} write[2, 255]"), w, vec![], &[2, 255], 1, false));
+        // one long message per direction (quick: 255 bytes for the first two wrappers, 64 for the others)
+        let long = if quick && !matches!(w, Wrapper::Client | Wrapper::Timeout) { 64 } else { 255 };
+        insts.push(Inst::new(format!("{name} read[{long}, 2]"), w, inbound_of(&[long, 2]), &[], 1, false).ctor(ctor));
+        insts.push(Inst::new(format!("{name} write[2, {long}]"), w, vec![], &[2, long], 1, false).ctor(ctor));
         do_grid(name, insts, &mut base);
+    }
+
+    // knobs: outbound queue depth (a full queue refuses the message: nothing handed over), the
+    // connect-future constructor, the idle timeout value (0 = disabled, 100 s, 360 s), the kind of the
+    // scripted I/O errors, the message content, zero-length outbound messages
+    {
+        let mut insts = vec![];
+        for depth in [0usize, 1] {
+            for o in [vec![1usize, 2], vec![3, 1, 2]] {
+                for (i, wake) in [(vec![], false), (vec![2usize], true)] {
+                    insts.push(Inst::new(format!("queue-depth={depth} in{i:?} out{o:?} wake={wake}"), Wrapper::Plain, inbound_of(&i), &o, 1, true).ctor(Ctor::BufferSize(depth)).wake(wake));
+                }
+            }
+            insts.push(Inst::new(format!("queue-depth={depth} foreign out[1, 1]"), Wrapper::Plain, vec![], &[1, 1], 0, false).ctor(Ctor::BufferSize(depth)).foreign(1));
+        }
+        if !quick {
+            // the default depth of 32: the 34th message of a burst is refused
+            insts.push(Inst::new("queue-depth=default burst of 34".into(), Wrapper::Plain, vec![], &[1usize; 34], 0, false));
+        }
+        for (i, o) in [(vec![1usize], vec![]), (vec![2, if quick { 40 } else { 255 }], vec![]), (vec![], vec![3usize, 1]), (vec![3, 1], vec![1, 2])] {
+            insts.push(Inst::new(format!("with_future in{i:?} out{o:?}"), Wrapper::Plain, inbound_of(&i), &o, 1, true).ctor(Ctor::WithFuture));
+        }
+        for w in [Wrapper::Timeout, Wrapper::ServerStack] {
+            for secs in [0u32, 100] {
+                for (i, o) in [(vec![1usize], vec![]), (vec![2, 1], vec![1usize])] {
+                    insts.push(Inst::new(format!("idle-timeout={secs}s {w:?} in{i:?} out{o:?}"), w, inbound_of(&i), &o, 0, false).idle_timeout(secs).ticks(2));
+                }
+            }
+        }
+        for kind in 1..ERR_KINDS.len() as u8 {
+            for w in [Wrapper::Plain, Wrapper::Client, Wrapper::Timeout] {
+                insts.push(Inst::new(format!("error-kind={:?} {w:?} in[2, 1] out[1, 2]", ERR_KINDS[kind as usize]), w, inbound_of(&[2, 1]), &[1, 2], if quick { 1 } else { 2 }, false).err_kind(kind));
+            }
+        }
+        for fill in [Fill::Zeros, Fill::Ones] {
+            for (i, o) in [(vec![1usize], vec![]), (vec![2, 3], vec![]), (vec![if quick { 40 } else { 255 }, 2], vec![]), (vec![], vec![2usize, 3]), (vec![], vec![if quick { 40usize } else { 255 }]), (vec![3, 2], vec![2, 3])] {
+                insts.push(Inst::new(format!("fill={fill:?} in{i:?} out{o:?}"), Wrapper::Plain, inbound_filled(&i, fill), &o, 1, false).fill(fill));
+            }
+        }
+        for w in [Wrapper::Plain, Wrapper::CompatChain] {
+            for o in [vec![0usize], vec![1, 0, 2], vec![0, 0]] {
+                insts.push(Inst::new(format!("zero-length-outbound {w:?} out{o:?}"), w, inbound_of(&[1]), &o, 1, false));
+            }
+        }
+        do_grid("knobs", insts, &mut base);
     }
 
     // wake-driven family: the driver polls only after an item or when the task's waker was woken
@@ -1405,6 +1670,10 @@ fn main() {
         insts.push(Inst::new("x-joint in[1] out[1] E=0".into(), Wrapper::Plain, inbound_of(&[1]), &[1], 0, true));
         insts.push(Inst::new("x-wake-joint in[1] out[1] E=0".into(), Wrapper::Plain, inbound_of(&[1]), &[1], 0, true).wake(true));
         insts.push(Inst::new("x-foreign out[1] E=0".into(), Wrapper::Plain, vec![], &[1], 0, false).foreign(1));
+        insts.push(Inst::new("x-queue-depth=0 out[1, 1] E=0".into(), Wrapper::Plain, vec![], &[1, 1], 0, false).ctor(Ctor::BufferSize(0)));
+        insts.push(Inst::new("x-compat-chain write[1] E=0".into(), Wrapper::CompatChain, vec![], &[1], 0, false));
+        insts.push(Inst::new("x-compat-tokio read[2] E=1".into(), Wrapper::CompatTokio, inbound_of(&[2]), &[], 1, false));
+        insts.push(Inst::new("x-idle-timeout=100 in[1] E=0".into(), Wrapper::ServerStack, inbound_of(&[1]), &[], 0, false).idle_timeout(100).ticks(2));
         insts.push(Inst::new("x-timeout-fire in[1] E=0".into(), Wrapper::Timeout, inbound_of(&[1]), &[], 0, false).ticks(2));
         if !quick {
             insts.push(Inst::new("x-joint in[1] out[1] E=1".into(), Wrapper::Plain, inbound_of(&[1]), &[1], 1, true));
@@ -1493,6 +1762,42 @@ fn main() {
         });
     }
 
+    // observation only (Ok(0) for a non-empty buffer is outside the alphabet): how often does the machine
+    // call the socket again inside ONE poll_next while the socket keeps answering Ok(0)?
+    ctx.with_local(|l| {
+        let inst = Inst::new("write-zero probe".into(), Wrapper::Plain, vec![], &[3], 0, false);
+        let shared = Arc::new(Mutex::new(Shared {
+            script: vec![Choice::Pending],
+            pos: 0,
+            auto_chunk: None,
+            inbound: Arc::new(vec![]),
+            consumed: 0,
+            accepted: Vec::new(),
+            flushed_at: None,
+            unflushed_boundary_writes: 0,
+            out_boundaries: inst.out_boundaries.clone(),
+            frozen: None,
+            eof_answered: false,
+            flags: 0,
+            errors_used: 0,
+            nonprogress: 0,
+            bad_script: None,
+            read_waker: None,
+            write_waker: None,
+            flush_waker: None,
+            err_kind: 0,
+            zero_write_budget: 1000,
+        }));
+        let (mut stream, mut handle) = TcpStream::from_stream(SimTcp(shared.clone()), peer());
+        let _ = handle.send(SerialMessage::new(message(1, 3), peer()));
+        let wc = Arc::new(WakeCount(AtomicUsize::new(0)));
+        let waker = Waker::from(wc);
+        let mut cx = Context::from_waker(&waker);
+        let _ = Pin::new(&mut stream).poll_next(&mut cx);
+        let left = shared.lock().unwrap().zero_write_budget;
+        l.outcome(if left == 0 { "obs:write-returns-0:retried-1000-times-inside-one-poll(busy-loop-until-the-socket-answers-otherwise)" } else { "obs:write-returns-0:machine-gives-up-or-yields" });
+    });
+
     // observation only (outside the statement's lengths 1..300 and not a DNS message over TCP at
     // all): a message of more than 65,535 bytes handed to the handle
     ctx.with_local(|l| {
@@ -1516,6 +1821,8 @@ fn main() {
                 read_waker: None,
                 write_waker: None,
                 flush_waker: None,
+                err_kind: 0,
+                zero_write_budget: 0,
             }));
             let res = catch(|| {
                 let (mut stream, mut handle) = TcpStream::from_stream(SimTcp(shared.clone()), peer());
